@@ -561,6 +561,12 @@ func (m *machine) apply(o Op) (skip bool, err error) {
 		if !xok || !yok || xv.K != yv.K || (xv.K != val.Arr && xv.K != val.Map) {
 			return true, nil
 		}
+		if m.excludedSharedAppend(x, xv) && m.sharedWithOthers(x) {
+			// the discarded sum is still built by appending into the left operand's spare capacity, which a part
+			// taken from the same storage (rest, slice) may overlap: class of K-C06-2
+			m.excl[kSharedAppend]++
+			return true, nil
+		}
 		return false, m.run(fmt.Sprintf("%s + %s", x, y))
 	case "slice":
 		if !xok || (xv.K != val.Arr && xv.K != val.Map) || xv.Len() == 0 {
